@@ -23,7 +23,8 @@ EXTENDS Naturals, Sequences, FiniteSets, TLC, Json
 
 CONSTANTS MaxFields, MaxLines, Devs, GenN
 
-HdrAtoms  == {"plain", "fold_sp", "fold_tab", "trail_ws", "empty", "8bit", "utf8", "long", "mixedcase"}
+HdrAtoms  == {"plain", "fold_sp", "fold_tab", "trail_ws", "empty", "8bit", "utf8", "long", "mixedcase",
+              "huge"}   \* a block of unsigned fields that pushes the header beyond 1 MiB
 BodyAtoms == {"text", "dot", "onlydot", "empty", "trail_sp", "8bit", "longline", "multi_sp"}
 Endings   == {"crlf", "multi_empty", "nobody"}
 Canons    == {"relaxed", "simple"}
